@@ -33,12 +33,12 @@ BASE_UNITS = {
     'kg': (F(1), _d(M=1)), 'g': (F(1, 1000), _d(M=1)), 'mg': (F(1, 10**6), _d(M=1)),
     's': (F(1), _d(T=1)), 'ms': (F(1, 1000), _d(T=1)), 'minute': (F(60), _d(T=1)), 'hour': (F(3600), _d(T=1)),
     'A': (F(1), _d(I=1)), 'mA': (F(1, 1000), _d(I=1)),
-    'K': (F(1), _d(TH=1)),
+    'K': (F(1), _d(TH=1)), 'mK': (F(1, 1000), _d(TH=1)), 'degR': (F(5, 9), _d(TH=1)),
     'mol': (F(1), _d(N=1)), 'mmol': (F(1, 1000), _d(N=1)), 'umol': (F(1, 10**6), _d(N=1)),
     'cd': (F(1), _d(J=1)),
 }
 BY_DIM = {L: ['m', 'cm', 'mm', 'km', 'um', 'nm', 'dm'], M: ['kg', 'g', 'mg'], T: ['s', 'ms', 'minute', 'hour'],
-          I: ['A', 'mA'], TH: ['K'], J: ['cd'], N: ['mol', 'mmol', 'umol']}
+          I: ['A', 'mA'], TH: ['K', 'K', 'mK', 'degR'], J: ['cd'], N: ['mol', 'mmol', 'umol']}
 LATTICE_DIMS = [L, M, T, I, TH, N]
 _E_J = _d(M=1, L=2, T=-2)            # energy
 
@@ -60,11 +60,17 @@ def _own_units():
         'umol_per_J': (F(1, 10**6), _d(N=1, M=-1, L=-2, T=2)),
         'm3': (F(1), _d(L=3)), 'dm3': (F(1, 1000), _d(L=3)), 'cm3': (F(1, 10**6), _d(L=3)),
         'decimetre': (F(1, 10), _d(L=1)),
+        # named derived units of `quantities` (their `.simplified` is what get_physical_dimensionality / unit_of(simplified=True) rely on)
+        'L': (F(1, 1000), _d(L=3)), 'mL': (F(1, 10**6), _d(L=3)), 'J': (F(1), _E_J), 'cal': (F(4184, 1000), _E_J), 'eV': (e, _E_J),
+        'N': (F(1), _d(M=1, L=1, T=-2)), 'Pa': (F(1), _d(M=1, L=-1, T=-2)), 'kPa': (F(1000), _d(M=1, L=-1, T=-2)), 'bar': (F(10**5), _d(M=1, L=-1, T=-2)),
+        'W': (F(1), _d(M=1, L=2, T=-3)), 'C': (F(1), _d(I=1, T=1)), 'V': (F(1), _d(M=1, L=2, T=-3, I=-1)), 'mV': (F(1, 1000), _d(M=1, L=2, T=-3, I=-1)),
+        'Hz': (F(1), _d(T=-1)),
     }
 
 
 OWN_FOR_LATTICE = ['molar', 'millimolar', 'micromolar', 'nanomolar', 'molal', 'per100eV', 'micromole', 'nanomole',
-                   'kilojoule', 'kilogray', 'perMolar_perSecond', 'umol_per_J', 'dm3', 'cm3']
+                   'kilojoule', 'kilogray', 'perMolar_perSecond', 'umol_per_J', 'dm3', 'cm3',
+                   'L', 'mL', 'J', 'cal', 'eV', 'N', 'Pa', 'kPa', 'bar', 'W', 'C', 'V', 'mV', 'Hz']
 
 # what each key of get_derived_unit NAMES, as a physical dimension (specification, written here by hand)
 DERIVED_SPEC = {
@@ -131,6 +137,12 @@ def _real(q):
     u = cu.default_units
     if 'num' in q:
         return q['num']
+    if q.get('dtype'):                   # a 0-d quantity whose magnitude is stored in a reduced-precision / integer dtype
+        import numpy as np
+        unit = cu.pq.dimensionless * 1.0
+        for name, e in q['u']:
+            unit = unit * getattr(u, name) ** e
+        return cu.pq.Quantity(np.array(q['mag'], dtype=q['dtype']), unit.dimensionality)
     r = q['mag'] * cu.pq.dimensionless if not q['u'] else q['mag']
     for name, e in q['u']:
         r = r * getattr(u, name) ** e
@@ -172,7 +184,12 @@ def _real_val(v):
             return a
         return np.array(float(v['z']['v']['num']))
     if 'arr' in v:
-        return np.array(v['arr']['mags'], dtype=float) * _real({'mag': 1.0, 'u': v['arr']['u']}) if v['arr']['u'] else np.array(v['arr']['mags'], dtype=float)
+        dt = v['arr'].get('dtype') or float
+        if not v['arr']['u']:
+            return np.array(v['arr']['mags'], dtype=dt)
+        if v['arr'].get('dtype'):
+            return _chempy().pq.Quantity(np.array(v['arr']['mags'], dtype=dt), _real({'mag': 1.0, 'u': v['arr']['u']}).dimensionality)
+        return np.array(v['arr']['mags'], dtype=float) * _real({'mag': 1.0, 'u': v['arr']['u']})
     return _real(v)
 
 
@@ -632,7 +649,7 @@ class C09(Property):
     # ------------------------------------------------------------------------------------------------ generation
     def generate(self, rng, n, tier):
         cases = []
-        for name in sorted(_own_units()) + ['umol', 'dm']:
+        for name in sorted(n_ for n_ in _own_units() if n_ not in ('L', 'mL', 'J', 'cal', 'eV', 'N', 'Pa', 'kPa', 'bar', 'W', 'C', 'V', 'mV', 'Hz')) + ['umol', 'dm']:
             cases.append({'op': 'own_unit', 'name': name})
         for name in sorted(DIM_CONST_SPEC):
             cases.append({'op': 'dim_constant', 'name': name})
@@ -641,7 +658,7 @@ class C09(Property):
             cases.append({'op': 'get_derived_unit', 'reg': [{'mag': 1.0, 'u': [[BY_DIM[i][0], 1]]} for i in range(7)], 'key': key})
             cases.append({'op': 'get_derived_unit', 'reg': _registry(rng), 'key': key})
         cases.append({'op': 'get_derived_unit', 'reg': None, 'key': 'energy'})
-        gens = [(0.30, self._g_scalar), (0.10, self._g_container), (0.07, self._g_small), (0.02, self._g_ndarray), (0.05, self._g_objarray), (0.03, self._g_round7), (0.045, self._g_allclose_arr), (0.12, self._g_registry),
+        gens = [(0.30, self._g_scalar), (0.10, self._g_container), (0.07, self._g_small), (0.02, self._g_ndarray), (0.04, self._g_dtype), (0.05, self._g_objarray), (0.03, self._g_round7), (0.045, self._g_allclose_arr), (0.12, self._g_registry),
                 (0.05, self._g_derived), (0.05, self._g_human), (0.04, self._g_compare), (0.06, self._g_allclose),
                 (0.05, self._g_linspace), (0.03, self._g_logspace), (0.03, self._g_concat), (0.02, self._g_tile),
                 (0.03, self._g_polyval), (0.02, self._g_polyfit), (0.03, self._g_backend)]
@@ -712,6 +729,41 @@ class C09(Property):
         u = rng.choice([{'num': 1}, None, {'mag': 1.0, 'u': []}, {'mag': 1.0, 'u': [['km', 1], ['m', -1]]}, {'mag': 1.0, 'u': [['cm', 1], ['m', -1]]},
                         {'mag': 2.0, 'u': [['km', 1], ['m', -1]]}, {'mag': 1.0, 'u': [['s', 1]]}, {'mag': 1.0, 'u': [['mmol', 1], ['mol', -1]]}])
         return {'op': 'to_unitless', 'v': v, 'u': u}
+
+    def _g_dtype(self, rng, tier):
+        """magnitudes stored in float16/32/64 or (u)int8…64: the conversion must still be the EXACT ratio at float64 precision (NumPy-2 promotion:
+        a Python-float factor would be 'weak' and keep the reduced precision / overflow float16)"""
+        import numpy as np
+        dt = rng.choice(['float16', 'float32', 'float32', 'float64', 'int8', 'int16', 'int32', 'int64', 'uint8'])
+
+        def mag():
+            if dt.startswith('float'):
+                x = rng.choice([1.1, 2.2, 0.3, 1.5, 3.0, 250.0, 0.007, 12.34, -4.4])
+                return float(np.dtype(dt).type(x))           # the value actually stored
+            return float(rng.randint(0 if dt.startswith('u') else -100, 100))
+        q = _q(rng)
+        us = _units_for_dims(rng, _book(q)[2])
+        r = rng.random()
+        if r < 0.45:
+            v = {'arr': {'mags': [mag() for _ in range(rng.randint(1, 3))], 'u': us, 'dtype': dt}}
+            if not us:
+                us = [['km', 1], ['m', -1]]
+                v['arr']['u'] = us
+            return {'op': 'to_unitless', 'v': v, 'u': _target(rng, {'mag': 1.0, 'u': us}, rng.random() < 0.85)}
+        if r < 0.6:
+            qq = {'mag': mag(), 'u': us or [['km', 1]], 'dtype': dt}
+            return {'op': 'to_unitless', 'v': qq, 'u': _target(rng, qq, rng.random() < 0.85), 'compat': True}
+        if r < 0.7:
+            return {'op': 'unitless_in_registry', 'v': {'mag': mag(), 'u': us or [['km', 1]], 'dtype': dt}, 'reg': _registry(rng)}
+        if r < 0.8:
+            first = {'mag': mag(), 'u': us or [['km', 1]], 'dtype': dt}
+            return {'op': 'uniform', 'v': {'l': [first, _compat_q(rng, first)]}}
+        us = us or [['km', 1]]
+        a0 = {'arr': {'mags': [mag() for _ in range(rng.randint(1, 3))], 'u': us, 'dtype': dt}}
+        if r < 0.9:
+            other = {'mag': 1.0, 'u': us}
+            return {'op': 'concatenate', 'arrays': [a0, {'l': [_compat_q(rng, other)]}]}
+        return {'op': 'tile', 'array': a0, 'reps': rng.choice([1, 2])}
 
     def _g_round7(self, rng, tier):
         """branches found unexecuted by tools/anchor_coverage.py: unit_of(simplified=True), rescale of a plain number onto a non-unit (AttributeError),
@@ -1531,6 +1583,8 @@ class C09(Property):
                 return self._oracle(c)
             except AssertionError as e:
                 return 'oracle assertion: %s' % e
+            except OverflowError:
+                return None          # magnitudes beyond the float64 range (not generated): no claim rather than a false alarm
 
     def _raises(self, f, classes=(ValueError,)):
         try:
@@ -2058,6 +2112,10 @@ class C09(Property):
     # ------------------------------------------------------------------------------------------------ statistics
     def classify(self, c):
         op = c['op']
+        if op == 'compare_equality_c' or (op == 'to_unitless' and _has_iterable(c['v'])) or (op == 'from_human' and 'power' in (c.get('kinds') or [])):
+            return 'mirrored-only(no oracle claim):' + op
+        if op == 'to_unitless' and any('dtype' in (x.get('arr') or x) for x in [c['v']] if isinstance(x, dict)):
+            return 'to_unitless:dtype:' + str((c['v'].get('arr') or c['v']).get('dtype'))
         if op == 'to_unitless':
             v = c['v']
             shape = ('objarray2d' if 'oa' in v and v['oa'] and 'oa' in v['oa'][0] else 'objarray' if 'oa' in v else 'zerod' if 'z' in v else 'nested2' if ('l' in v or 't' in v) and any('l' in x or 't' in x for x in v.get('l', v.get('t'))) else
